@@ -283,33 +283,53 @@ def rule_nul(X, R, rule="R20-nul"):
     calls_ = [(c["m"], c) for c in exprs(body, "MethodCall", into_closures=False)]
     names = [m for m, _ in calls_]
     R.check("extend" in names or "extend_from_slice" in names, rule, fn, "appended bytes are copied", where=h["span"])
-    # the replacement closure
+    # the replacement: an assignment of SUBSTITUTE_BYTE to an element of self.0[len..new_len] under `elem == 0`,
+    # whether the elements are visited by for_each or by a for loop
+    import sem
+    S = sem.Sem(X, h, inline=False)
     rep = False
     rng_ok = False
-    for c in exprs(body, "MethodCall"):
-        if c["m"] == "for_each":
-            clo = closure_of(c["args"][0])
-            if not clo:
+    for x in S.sites():
+        a_ = x.node
+        if a_.get("k") != "Assign" or not (def_path(a_["r"]) or "").endswith("SUBSTITUTE_BYTE"):
+            continue
+        tgt = sem.root_local(S, a_["l"], x.frame)
+        zero = False
+        for op, l, r, fr, certain in sem.weak_cmps(x.pc):
+            if certain and op == "Eq" and ((lit_value(r) == 0 and sem.root_local(S, l, fr) is tgt) or
+                                           (lit_value(l) == 0 and sem.root_local(S, r, fr) is tgt)):
+                zero = True
+        lits, ors = sem.literals(x.pc)
+        extra = list(ors)
+        for atom, pol in lits:
+            if atom.kind == "cmp" and atom.op in ("Eq", "Ne") and (lit_value(atom.r.node) == 0 or lit_value(atom.l.node) == 0):
                 continue
-            for i in exprs(clo["body"], "If"):
-                cond = strip(i["cond"])
-                if cond.get("k") == "Binary" and cond["op"] == "Eq" and (lit_value(cond["r"]) == 0 or lit_value(cond["l"]) == 0):
-                    asg = [a for a in exprs(i["then"], "Assign") if (def_path(a["r"]) or "").endswith("SUBSTITUTE_BYTE")]
-                    rep = len(asg) == 1
-            root, ch = chain(c)
-            ms = [x["m"] for x in ch]
-            idx = [x for x in exprs(c["recv"], "Index")]
-            if idx and ms[:1] == ["iter_mut"]:
-                st = [f for f in exprs(idx[0]["idx"], "Struct")]
+            if atom.kind == "is" and len(atom.scruts) == 1 and sem.is_method(atom.scruts[0].node, "next") is not None:
+                continue        # for-loop bookkeeping
+            extra.append(atom)
+        rep = zero and tgt is not None and not extra
+        # where the element comes from: an order-preserving walk over an index range of self.0
+        if tgt is not None:
+            b_, root_, fr_, ms = sem.provenance(S, a_["l"], x.frame)
+            src = tgt.expr
+            idx = [i_ for i_ in exprs(src, "Index")] if src is not None else []
+            # loop variable: the iterated expression holds the slice
+            if not idx:
+                for ls, pat, it in sem.for_loops(S):
+                    if any(q.get("k") == "PBinding" and ls.frame.binds.get(q["id"]) is tgt for q in walk(pat or {})):
+                        idx = [i_ for i_ in exprs(it, "Index")]
+            if idx:
                 rng = strip(idx[0]["idx"])
                 fl = {f["name"]: local_name(f["e"]) for f in rng.get("fields", [])} if rng.get("k") == "Struct" else {}
                 # start = the length before extend(buf), end = the length after it
-                ext = [i_ for i_, s_ in enumerate(stm) if any(x["m"] in ("extend", "extend_from_slice") for x in exprs(s_, "MethodCall"))]
+                ext = [i_ for i_, s_ in enumerate(stm) if any(y["m"] in ("extend", "extend_from_slice") for y in exprs(s_, "MethodCall"))]
+
                 def len_let(nm_):
                     return [i_ for i_, s_ in enumerate(stm) if s_.get("k") == "SLet" and s_["pat"].get("name") == nm_ and
                             strip(s_.get("init", {})).get("m") == "len"]
-                a_, b_ = len_let(fl.get("start")), len_let(fl.get("end"))
-                rng_ok = bool(ext and a_ and b_) and a_[0] < ext[0] < b_[0]
+                a0, b0 = len_let(fl.get("start")), len_let(fl.get("end"))
+                rng_ok = bool(ext and a0 and b0) and a0[0] < ext[0] < b0[0] and \
+                    chain_verdict([{"m": m_} for m_ in ms if not m_.startswith(".")], terminal_ok=("for_each",)) == "ok"
     R.check(rep, rule, fn, "every NUL byte of the appended range is replaced by the substitute byte", where=h["span"])
     R.check(rng_ok, rule, fn, "the replaced range is exactly the appended bytes [len..new_len]", where=h["span"])
     # terminator pushed last
